@@ -61,12 +61,12 @@ def column_from_label(label, frame, cat_factors, scale=1.0, extra=None):
     return val, parts
 
 
-def full_kronecker_labels(factor_exprs, frame, cat_factors):
+def full_kronecker_labels(factor_exprs, frame, cat_factors, levels=None):
     """predicted labels of one term with rank reduction OFF: first factor varying fastest, levels in level order"""
     per_factor = []
     for f in factor_exprs:
         if f in cat_factors:
-            per_factor.append(["%s[%s]" % (f, l) for l in levels_of(frame[cat_factors[f]])])
+            per_factor.append(["%s[%s]" % (f, l) for l in ((levels or {}).get(f) or levels_of(frame[cat_factors[f]]))])
         else:
             per_factor.append([f])
     if not per_factor:
